@@ -76,7 +76,7 @@ func NewOrchestrator(parentLogger logger.Logger, schema base.LogSchema, keyField
 		localMap := o.workerMap.MakeLocalMap()
 		onCreating := func([]string) {}
 		for _, pipelineID := range initialPipelineIDs {
-			keys := strings.Split(pipelineID, ",")
+			keys := splitPipelineID(pipelineID)
 			if len(keys) != len(keyFields) {
 				// FIXME: deal with new keys, shorter old keys should be okay
 				ologger.Warnf("ignore malformed existing pipeline ID: %s", pipelineID)
@@ -105,7 +105,7 @@ func (o *byKeySetOrchestrator) Shutdown() {
 // newPipeline creates channel and pipeline workers for a new key-set, must be protected by global mutex
 func (o *byKeySetOrchestrator) newPipeline(keys []string, onStopped func()) chan<- []*base.LogRecord {
 	outputTag := o.tagBuilder.Build(keys)
-	workerID := strings.Join(keys, ",")
+	workerID := joinPipelineID(keys)
 	inputChannel := make(chan []*base.LogRecord, defs.IntermediateBufferedChannelSize)
 	pipelineLogger := o.logger.WithField(defs.LabelName, workerID)
 	pipelineLogger.Infof("new pipeline tag=%s", outputTag)
@@ -144,7 +144,7 @@ func (oc *byKeySetOrchestratorSink) Close() {
 }
 
 func (oc *byKeySetOrchestratorSink) onNewLinkToPipeline(permKeys []string) {
-	workerID := strings.Join(permKeys, ",")
+	workerID := joinPipelineID(permKeys)
 	oc.logger.WithField(defs.LabelName, workerID).Info("creating new link from input to pipeline worker")
 }
 
@@ -161,3 +161,46 @@ func (oc *byKeySetOrchestratorSink) flushAllLocalBuffers(forceAll bool) {
 		cache.Flush(now, oc.logger, mergedKey)
 	})
 }
+
+// joinPipelineID makes the ID of a pipeline (also the name of its buffer queue) from its key values, joined by commas.
+//
+// Commas and backslashes inside key values are escaped by backslash, or different key sets such as ("a,b","c") and
+// ("a","b,c") would share the same ID and queue, and the ID couldn't be split back into key values for recovery
+func joinPipelineID(keys []string) string {
+	escaped := make([]string, len(keys))
+	for i, key := range keys {
+		escaped[i] = pipelineIDEscaper.Replace(key)
+	}
+	if id := strings.Join(escaped, ","); id != "" {
+		return id
+	}
+	// single key of empty value: an empty ID means no separate queue (dir) to the buffer and it couldn't be recovered
+	return emptyPipelineID
+}
+
+// splitPipelineID splits a pipeline ID made by joinPipelineID back into key values
+func splitPipelineID(pipelineID string) []string {
+	if pipelineID == emptyPipelineID {
+		return []string{""}
+	}
+	keys := make([]string, 0, 10)
+	current := make([]byte, 0, len(pipelineID))
+	for i := 0; i < len(pipelineID); i++ {
+		switch c := pipelineID[i]; {
+		case c == '\\' && i+1 < len(pipelineID):
+			i++
+			current = append(current, pipelineID[i])
+		case c == ',':
+			keys = append(keys, string(current))
+			current = current[:0]
+		default:
+			current = append(current, c)
+		}
+	}
+	return append(keys, string(current))
+}
+
+// emptyPipelineID is the ID for a single key of empty value; it cannot be produced by escaping
+const emptyPipelineID = "\\0"
+
+var pipelineIDEscaper = strings.NewReplacer("\\", "\\\\", ",", "\\,")
